@@ -107,11 +107,12 @@ def judge(ck, flex, scratch, cases, results, stats):
         if not probs:
             continue
         kind, msg = probs[0]
-        noinput = kind in ('harness-error', 'driver-error', 'tables-unreadable', 'request-mismatch')
+        noinput = kind in ('harness-error', 'driver-error', 'tables-unreadable', 'request-mismatch', 'request-size-mismatch')
         what = {"token-mismatch": "tokens depend on how the input was delivered (they differ from the documented tokenisation)",
                 "yytext-mismatch": "yytext is not the corresponding slice of the input",
                 "scanner-abnormal": "scanner stopped abnormally",
                 "request-mismatch": "input requests differ from the window machine (C03_no_request_once_stopped / correspondence Window.v)",
+                "request-size-mismatch": "the sizes the scanner asks its input routine for differ from the buffer model (correspondence coq/BufLayout.v; the tokens agree)",
                 "scan-buffer-null": "yy_scan_buffer refused a well-formed buffer",
                 "compile-error": "generated scanner does not compile", "flex-error": "flex refuses a documented program"}.get(kind, kind)
         key = "%s:%s" % (kind, hashlib.sha256((c['text'] + msg[:200]).encode()).hexdigest()[:10])
@@ -129,7 +130,8 @@ def main(tier):
     engine.judge = judge
     try:
         def post(ck, flex, scratch, cases, results, stats):
-            return {"reject_overflows_documented": stats.get('reject_overflows_documented', 0),
+            return {"request_sizes_compared_with_buffer_model": sum(r.get('requests_checked', 0) for r in results),
+                    "reject_overflows_documented": stats.get('reject_overflows_documented', 0),
                     "source_kind_histogram": stats.get('source_kind_histogram', {}),
                     "buffer_size_histogram": {str(b): sum(1 for c in cases if c.get('bufsize') == b) for b in BUFSIZES}}
         return engine.standard_main(
@@ -137,7 +139,7 @@ def main(tier):
             "(program, input, buffer size 1..64/default, read schedule) tuples over 4 back ends and table options: a harness input routine "
             "returns schedule[i] bytes per request (all-ones, alternating, exactly / one below / one above the buffer size, geometric, one "
             "huge, random) and logs each request; also FILE, yy_scan_string, yy_scan_bytes, yy_scan_buffer; inputs contain tokens longer "
-            "than 1x, 2x, 5x the buffer; tokens judged by the proved validator, the interleaving of requests and tokens compared with the "
+            "than 1x, 2x, 5x the buffer; tokens judged by the proved validator, the max_size of every request compared with the buffer model (coq/BufLayout.v), the interleaving of requests and tokens compared with the "
             "window machine run on the chunks really delivered; non-trivial = DFA >= 3 states and >= 2 rules matched",
             ["REJECT / variable-trailing-context scanners: the documented 'input buffer overflow' fatal error is accepted when it occurs "
              "(their buffer does not grow); their request pattern is not compared",
